@@ -315,12 +315,28 @@ let run_rfault (payload : string) : string =
            | M.DFail (M.EMalformed, toks, _) -> Printf.sprintf "err other %d" (List.length toks)
            | M.DFail (_, toks, _) -> Printf.sprintf "err fault %d" (List.length toks)
            | _ -> "panic")
-        else
-          (match M.jdec_run pre with
-           | M.JDOk (toks, rest) -> Printf.sprintf "ok @%d %s" (total - List.length rest) (print_tokens toks)
+        else begin
+          (* a fault met while a number is being scanned is reported as such: the decoder never gets to
+             convert the digits read so far (unlike a genuine end of input).  So the digits at the cut
+             are dropped before the prefix is read as a whole input. *)
+          let is_num c = let c = int_of_z c in (c >= 48 && c <= 57) || c = 46 || c = 101 || c = 69 || c = 43 || c = 45 in
+          let rec strip l = match l with c :: r when is_num c -> strip r | _ -> l in
+          let stripped = List.rev (strip (List.rev pre)) in
+          (* the run of number characters at the cut is a number only if it starts like one ("false" ends in 'e') *)
+          let starts_number =
+            (match List.filteri (fun i _ -> i = List.length stripped) pre with
+             | [c] -> let c = int_of_z c in (c >= 48 && c <= 57) || c = 45
+             | _ -> false) in
+          let pre' = if k > 0 && k <= List.length bs && starts_number then stripped else pre in
+          let in_number = List.length pre' < List.length pre in
+          (match M.jdec_run pre' with
+           | M.JDOk (toks, rest) ->
+               if in_number then Printf.sprintf "err fault %d" (List.length toks)
+               else Printf.sprintf "ok @%d %s" (total - List.length rest) (print_tokens toks)
            | M.JDFail (M.EMalformed, toks) -> Printf.sprintf "err other %d" (List.length toks)
            | M.JDFail (_, toks) -> Printf.sprintf "err fault %d" (List.length toks)
-           | _ -> "hang") in
+           | _ -> "hang")
+        end in
       r ^ " | whole: " ^ whole
   | _ -> failwith "bad rfault payload"
 
